@@ -118,6 +118,8 @@ func generate(r *lib.Run) {
 					it.Mark = 3 // retrieved while the cleaner is between its walk and its loop
 				case m < 7:
 					it.Mark = 4 // retrieved between the loop's test of this entry and its rename
+				case m < 9:
+					it.Mark = 5 // retrieved while the loop is evicting its first entry
 				}
 			}
 		placed:
@@ -167,7 +169,7 @@ func generate(r *lib.Run) {
 	}
 	// malformed
 	for _, l := range []string{"", "sc", "sc x d 61", "sc u q 61", "sc u d 6", "fl c 7", "fl u 4", "fl z 1", "fl c x", "sp 1 2 3", "ex c 1 1 zz -",
-		"sp 10 5 01:5:0 - - 02 0", "sp 10 5 01:5:0 - 02 0", "lay u 1 1 0 bad", "lay u 1 1 2 p,t,61,d,1,1,0,0,61", "lay u 1 1 0 p,t,61,d,1,1,0,5,61"} {
+		"sp 10 5 01:5:0 - - 02 0", "sp 10 5 01:5:0 - 02 0", "lay u 1 1 0 bad", "lay u 1 1 2 p,t,61,d,1,1,0,0,61", "lay u 1 1 0 p,t,61,d,1,1,0,6,61"} {
 		runOp(r, l)
 	}
 }
